@@ -524,6 +524,60 @@ func leavesUnder(tree interface{}, id string) map[string][]float64 {
 	return out
 }
 
+func sortedLeafSigs(m map[string][]float64) []string {
+	var sigs []string
+	for sig := range m {
+		sigs = append(sigs, sig)
+	}
+	sort.Strings(sigs)
+	return sigs
+}
+
+// recordLeaves collects the numeric fields of every record (map node) that names id: a string
+// field equal to id directly in it or in one of its direct sub-records.
+func recordLeaves(tree interface{}, id string) []float64 {
+	var out []float64
+	names := func(m map[string]interface{}) bool {
+		for _, v := range m {
+			switch x := v.(type) {
+			case string:
+				if x == id {
+					return true
+				}
+			case map[string]interface{}:
+				for _, e := range x {
+					if s, ok := e.(string); ok && s == id {
+						return true
+					}
+				}
+			}
+		}
+		return false
+	}
+	var walk func(v interface{})
+	walk = func(v interface{}) {
+		switch x := v.(type) {
+		case map[string]interface{}:
+			if names(x) {
+				for _, k := range sortedKeys(x) {
+					if f, ok := x[k].(float64); ok {
+						out = append(out, f)
+					}
+				}
+			}
+			for _, k := range sortedKeys(x) {
+				walk(x[k])
+			}
+		case []interface{}:
+			for _, e := range x {
+				walk(e)
+			}
+		}
+	}
+	walk(tree)
+	return out
+}
+
 // paramsFidelity: the method parameters a bias reports for a criterion it added must be what the
 // next stage received for that criterion (same value at the same level index / sub-field). It only
 // speaks where the next stage's parameters are keyed by the criterion id at all.
@@ -537,6 +591,28 @@ func paramsFidelity(id string, reported json.RawMessage, next *StateSnap) string
 	}
 	rep := leavesUnder(r, id)
 	got := leavesUnder(next.ParamsTree, id)
+	if len(rep) > 0 && len(got) == 0 {
+		// the next stage keeps its parameters as records that name the criterion ({criterion: {id},
+		// weight}) instead of keying them by its id: every reported number must be a field of such a record
+		rec := recordLeaves(next.ParamsTree, id)
+		if len(rec) == 0 {
+			return ""
+		}
+		for _, sig := range sortedLeafSigs(rep) {
+			for _, v := range rep[sig] {
+				found := false
+				for _, h := range rec {
+					if sameFloat(h, v) {
+						found = true
+					}
+				}
+				if !found {
+					return fmt.Sprintf("the bias reports method parameter %v for the added criterion %q, the record the next stage received for it holds %v", v, id, rec)
+				}
+			}
+		}
+		return ""
+	}
 	if len(rep) == 0 || len(got) == 0 {
 		return ""
 	}
@@ -838,8 +914,25 @@ func (x *planExec) execFreq(op *Op) {
 	x.setMapOrder(op)
 	hits := 0
 	n := 0
+	base := r.Int63() % (1 << 52)
+	small := int64(r.Intn(100))
 	for i := 0; i < f.N; i++ {
-		tmpl["biasApplyRandomSeed"] = float64(r.Int63() % (1 << 52))
+		// "many seeds" are whatever seeds a client happens to use: random ones, but just as well
+		// 1, 2, 3, ... or a counter starting anywhere
+		var sd int64
+		switch f.SeedMode {
+		case "seq":
+			sd = small + int64(i)
+		case "seq-large":
+			sd = base + int64(i)
+		case "neg":
+			sd = -(small + 1 + int64(i))
+		case "step":
+			sd = (small + int64(i)) * 1000
+		default:
+			sd = r.Int63() % (1 << 52)
+		}
+		tmpl["biasApplyRandomSeed"] = float64(sd)
 		body := JSONBytes(tmpl)
 		res := x.w.DoHTTP(x.w.mainTask, "POST", "/api/decide", body, nil)
 		x.out.Stats.Requests++
